@@ -11,13 +11,15 @@ TOL = 1e-7
 
 
 def h_promotion(sym, typ="promotion", mode="min", T=3, E=8, W=2, max_t=4, grace=1, rf=2, ckpt=True,
-                max_resource_attr=True, concrete_metrics=False):
+                max_resource_attr=True, concrete_metrics=False, explicit=None):
     from syne_tune.optimizer.schedulers.hyperband import HyperbandScheduler
     from syne_tune.config_space import uniform
 
     cs = {"x": uniform(0, 1), "epochs": max_t}
     kw = dict(searcher="random", metric="m", mode=mode, resource_attr="r", type=typ, grace_period=grace,
               reduction_factor=rf, random_seed=1)
+    if explicit is not None:
+        kw["rung_levels"] = list(explicit)
     if max_resource_attr:
         kw["max_resource_attr"] = "epochs"
     else:
@@ -26,7 +28,7 @@ def h_promotion(sym, typ="promotion", mode="min", T=3, E=8, W=2, max_t=4, grace=
     if cost:
         kw["cost_attr"] = "c"
     sch = make(HyperbandScheduler, cs, **kw)
-    levels = ref_rung_levels(grace, max_t, rf=rf)
+    levels = ref_rung_levels(grace, max_t, rf=rf, explicit=explicit)
 
     def better(a, b):
         return a < b if mode == "min" else a > b
@@ -198,6 +200,9 @@ def obligations(tier):
         ("promotion,max,no-ckpt", dict(typ="promotion", mode="max", ckpt=False)),
         ("promotion,min,no-max_resource_attr", dict(typ="promotion", mode="min", ckpt=True, max_resource_attr=False)),
         ("rush_promotion,max", dict(typ="rush_promotion", mode="max", ckpt=True)),
+        # non-uniform promotion quantiles: levels 1,2 with max_t 8 give q = 1/2 and 1/4
+        ("promotion,min,levels=1|2,max_t=8", dict(typ="promotion", mode="min", ckpt=True, explicit=[1, 2], max_t=8)),
+        ("promotion,max,levels=1|3,max_t=4", dict(typ="promotion", mode="max", ckpt=True, explicit=[1, 3], max_t=4)),
         ("cost_promotion,min", dict(typ="cost_promotion", mode="min", ckpt=True, E=7)),
         ("pasha,min", dict(typ="pasha", mode="min", ckpt=True, concrete_metrics=True, T=4, E=12, max_t=8)),
     ]
